@@ -522,7 +522,7 @@ fn minimise_text(text: &str, kind: &str) -> String {
 pub fn main(opts: &Opts) -> ! {
     let t0 = std::time::Instant::now();
     let (n, budget) = match opts.tier {
-        Tier::Quick => ((4000.0 * opts.scale) as u64, 200.0),
+        Tier::Quick => ((8000.0 * opts.scale) as u64, 200.0),
         Tier::Thorough => ((200_000.0 * opts.scale) as u64, 2400.0),
     };
     struct Acc {
